@@ -109,7 +109,7 @@ func runCase(out *bufio.Writer, flushLine bool, kind string, params []string, op
 					return
 				}
 			}
-			resps <- guard(func() string { return r.Do(toks) })
+			resps <- doLine(r, toks)
 		}
 	}()
 	timer := time.NewTimer(time.Hour)
@@ -154,7 +154,7 @@ func runCase(out *bufio.Writer, flushLine bool, kind string, params []string, op
 			reqs = nil // the worker is stuck: leave it behind
 			break
 		}
-		if res == "panic" {
+		if res == "panic" && toks[0] != "fault" {
 			break // the instance is in an undefined state: the case ends here
 		}
 	}
@@ -206,10 +206,10 @@ func runTimedCase(out *bufio.Writer, kind string, params []string, ops []string,
 					synctest.Wait()
 					res = "ok"
 				} else {
-					res = guard(func() string { return r.Do(toks) })
+					res = doLine(r, toks)
 				}
 				lines = append(lines, strings.Join(toks, " ")+" => "+res)
-				if res == "panic" || res == "hang" {
+				if (res == "panic" && toks[0] != "fault") || res == "hang" {
 					break
 				}
 			}
